@@ -572,3 +572,54 @@ def model_rejects(ctx: Ctx, cls_name: str) -> list[tuple[ast.AST, str]]:
                     out.append((r, f"validator {st.name} raises: "
                                    f"'{unparse(r)[:60]}'"))
     return out
+
+
+def crossed_handoffs(rep: Report, ctx: Ctx, rule: str,
+                     modules: tuple[str, ...], minimum: int) -> None:
+    """Positional hand-offs between package functions: two arguments that
+    carry the names of two parameters of the callee are passed in those
+    parameters' positions.  `f(graph, loop)` for `def f(loop, graph)` type-
+    checks nowhere in this code base (no annotations are enforced at run
+    time), fails loudly at best and crosses two sets of the same type at
+    worst (start / end events, in- / out-sets).  Only a crossed PAIR is
+    reported: a single local that happens to carry another parameter's name
+    (a recursive call that passes its own `node` as the callee's `parent`)
+    is a legitimate idiom."""
+    entry = ctx.func("pv_to_puml_string")
+    n_sites = 0
+    bad = []
+    for q in sorted(ctx.cg.closure([entry])):
+        fi = ctx.index.functions.get(q)
+        if fi is None or not any(m in fi.module.relpath for m in modules):
+            continue
+        for site in ctx.cg.sites_in(fi):
+            if len(site.callees) != 1 or not isinstance(site.node, ast.Call):
+                continue
+            cal = site.callees[0]
+            ps = cal.params()
+            if ps and ps[0] in ("self", "cls"):
+                ps = ps[1:]
+            names: list[Optional[str]] = []
+            for a in site.node.args:
+                if isinstance(a, ast.Starred):
+                    break
+                names.append(a.id if isinstance(a, ast.Name) else (
+                    a.attr if isinstance(a, ast.Attribute) else None))
+            n_sites += 1
+            for i, nm in enumerate(names[:len(ps)]):
+                if nm is None or nm == ps[i] or nm not in ps:
+                    continue
+                j = ps.index(nm)
+                if j < len(names) and names[j] == ps[i]:
+                    bad.append((fi, site.node, cal, ps[i], ps[j]))
+    rep.analysed[f"{rule}_call_sites"] = n_sites
+    if n_sites == 0:
+        raise AnalysisError(f"{rule}: no resolved hand-off found in "
+                            f"{modules} (expected about {minimum})")
+    rep.ob(rule, "no positional hand-off crosses two parameters of the "
+           "callee", not bad, fi=bad[0][0] if bad else entry,
+           node=bad[0][1] if bad else entry.node,
+           detail=(f"'{unparse(bad[0][1])[:70]}' passes '{bad[0][4]}' as "
+                   f"'{bad[0][3]}' and '{bad[0][3]}' as '{bad[0][4]}' of "
+                   f"{bad[0][2].short}" if bad else
+                   f"{n_sites} resolved call sites, none crossed"))
